@@ -889,3 +889,30 @@ func wrapPMTScenario(r *rand.Rand) []HOp {
 	ops = append(ops, HOp{Kind: "tables"}, mk(0x100), mk(0x101))
 	return ops
 }
+
+// wrapDescriptorScenario: a stream announced with a descriptor whose body is exactly 256 (or 512) bytes — every part of it legal, the
+// whole not representable in the 8 bit descriptor_length: no program map section can list this stream as it was added, and an 8 bit sum
+// of the body's parts is 0. Every emission must be refused with nothing written until the stream is removed again.
+func wrapDescriptorScenario(r *rand.Rand) []HOp {
+	n := []int{256, 256, 512, 255, 257}[r.IntN(5)]
+	var d *astits.Descriptor
+	switch r.IntN(4) {
+	case 0:
+		d = &astits.Descriptor{Tag: 0x80 + uint8(r.IntN(0x7e)), UserDefined: gen.Bytes(r, n)}
+	case 1: // 8 bytes per item
+		d = &astits.Descriptor{Tag: astits.DescriptorTagSubtitling, Subtitling: &astits.DescriptorSubtitling{}}
+		for k := 0; k < n/8; k++ {
+			d.Subtitling.Items = append(d.Subtitling.Items, &astits.DescriptorSubtitlingItem{Language: []byte("eng"), Type: uint8(k), CompositionPageID: uint16(k), AncillaryPageID: uint16(k + 1)})
+		}
+	case 2: // format identifier + additional identification info
+		d = &astits.Descriptor{Tag: astits.DescriptorTagRegistration, Registration: &astits.DescriptorRegistration{FormatIdentifier: 0x41432d33, AdditionalIdentificationInfo: gen.Bytes(r, n-4)}}
+	default:
+		d = &astits.Descriptor{Tag: 0x0b, Unknown: &astits.DescriptorUnknown{Tag: 0x0b, Content: gen.Bytes(r, n)}}
+	}
+	mk := func(p uint16) HOp {
+		return HOp{Kind: "data", PID: p, Data: &astits.MuxerData{PES: &astits.PESData{Header: &astits.PESHeader{StreamID: 0xE0, OptionalHeader: &astits.PESOptionalHeader{MarkerBits: 2}}, Data: gen.Bytes(r, 1+r.IntN(400))}}}
+	}
+	return []HOp{{Kind: "add", PID: 0x40, ES: &astits.PMTElementaryStream{StreamType: astits.StreamTypeH264Video}, Slot: -1}, {Kind: "pcr", PID: 0x40}, {Kind: "tables"}, mk(0x40),
+		{Kind: "add", PID: 0x41, ES: &astits.PMTElementaryStream{StreamType: astits.StreamTypePrivateData, ElementaryStreamDescriptors: []*astits.Descriptor{d}}, Slot: -1},
+		{Kind: "tables"}, mk(0x40), mk(0x41), {Kind: "remove", PID: 0x41}, {Kind: "tables"}, mk(0x40)}
+}
